@@ -137,6 +137,14 @@ def run_program(ctx, prog, rng, pidx):
                 if any(e[0] == 'save_failed' for e in res.spy_events):
                     continue
                 (incomplete_ids if interrupted else complete_ids).append((res.live.cls.__name__, saves[0][2]))
+                if not interrupted and rng.random() < 0.3:
+                    # the long-lived recorder also replays between its recordings (a self-check, a studio run in the same process)
+                    from vlib.programs import Built as _B, World as _W, playback_function_for as _pf
+                    try:
+                        rec.play(saves[0][2], _pf(_B(res.live.prog, rec, _W(1, poison=True), cls_name=res.live.cls.__name__)))
+                    except BaseException:  # noqa - whatever the replay does, the next run's metadata must tell the truth
+                        pass
+                    ctx.count('replays_between_recorded_runs')
                 ro = spy.recordings.get(saves[0][1])
                 if ro is None or not recording_in_domain(getattr(ro, 'recording_data', {}), getattr(ro, 'recording_metadata', {})):
                     # the third-party serializer does not restore this recording faithfully (or at all): what is read back is not judged,
@@ -181,6 +189,7 @@ def gen_c18_program(seed):
                     nested=False, record_data=False, extractor=False)
     p['gen_seed'] = seed
     p['params'] = None
+    fr.returns_error_object(p, random.Random(seed + 3), rate=0.15)
     p['with_inner_operation'] = rng.random() < 0.3
     if p['with_inner_operation']:
         p['body'].insert(rng.randrange(len(p['body'])) if p['body'] else 0, {'op': 'inner_op'})
